@@ -75,11 +75,44 @@ impl StyleD {
                 return PrimitiveStyle::with_fill(C::nth(fc));
             }
         }
-        let mut b = PrimitiveStyleBuilder::new().stroke_width(self.width).stroke_alignment(match self.align {
+        let align = match self.align {
             0 => StrokeAlignment::Inside,
             1 => StrokeAlignment::Center,
             _ => StrokeAlignment::Outside,
-        });
+        };
+        // a third of the styles is derived from an existing style that differs either in its colours
+        // or in its stroke geometry (PrimitiveStyleBuilder::from + the setters and reset_* methods),
+        // the way a theme is specialised; what the two styles share is not set again
+        let sel = self.width % 3 + self.align as u32 + self.fill.unwrap_or(1) % 3;
+        if sel % 3 == 2 {
+            let style = if self.dotted { StrokeStyle::Dotted } else { StrokeStyle::Solid };
+            if sel == 2 {
+                let other = PrimitiveStyleBuilder::new().fill_color(C::nth(5)).stroke_color(C::nth(6)).stroke_width(self.width).stroke_alignment(align).stroke_style(style).build();
+                let b = PrimitiveStyleBuilder::from(&other);
+                let b = match self.fill {
+                    Some(f) => b.fill_color(C::nth(f)),
+                    None => b.reset_fill_color(),
+                };
+                return match self.stroke {
+                    Some(s) => b.stroke_color(C::nth(s)),
+                    None => b.reset_stroke_color(),
+                }
+                .build();
+            }
+            let mut o = PrimitiveStyleBuilder::new()
+                .stroke_width(self.width / 2 + 7)
+                .stroke_alignment(if self.align == 2 { StrokeAlignment::Inside } else { StrokeAlignment::Outside })
+                .stroke_style(if self.dotted { StrokeStyle::Solid } else { StrokeStyle::Dotted });
+            if let Some(f) = self.fill {
+                o = o.fill_color(C::nth(f));
+            }
+            if let Some(s) = self.stroke {
+                o = o.stroke_color(C::nth(s));
+            }
+            let other = o.build();
+            return PrimitiveStyleBuilder::from(&other).stroke_width(self.width).stroke_alignment(align).stroke_style(style).build();
+        }
+        let mut b = PrimitiveStyleBuilder::new().stroke_width(self.width).stroke_alignment(align);
         if let Some(f) = self.fill {
             b = b.fill_color(C::nth(f));
         }
@@ -435,7 +468,63 @@ impl TextD {
                 return f(&Text::with_alignment(&self.text, pt(self.at), style, alignment_of(self.align)));
             }
         }
+        // a third of the styles is derived from an existing style that differs either in its colours
+        // or in its decorations (MonoTextStyleBuilder::from / TextStyleBuilder::from + setters and
+        // reset_* methods); what the two styles share is not set again
+        let sel = (self.at.0 + self.at.1).rem_euclid(6);
+        let derived = sel == 1 || sel == 4;
+        let other;
         let mut b = MonoTextStyleBuilder::<C>::new().font(font);
+        if sel == 1 {
+            // same decorations, other colours
+            let mut o = MonoTextStyleBuilder::<C>::new().font(font).text_color(C::nth(5)).background_color(C::nth(6));
+            o = match self.underline {
+                DecoD::None => o,
+                DecoD::TextColor => o.underline(),
+                DecoD::Custom(c) => o.underline_with_color(C::nth(c)),
+            };
+            o = match self.strike {
+                DecoD::None => o,
+                DecoD::TextColor => o.strikethrough(),
+                DecoD::Custom(c) => o.strikethrough_with_color(C::nth(c)),
+            };
+            other = o.build();
+            b = MonoTextStyleBuilder::from(&other);
+            b = match self.text_color {
+                Some(c) => b.text_color(C::nth(c)),
+                None => b.reset_text_color(),
+            };
+            b = match self.bg {
+                Some(c) => b.background_color(C::nth(c)),
+                None => b.reset_background_color(),
+            };
+            let style = b.build();
+            return self.finish_text(style, derived, f);
+        }
+        if sel == 4 {
+            // same colours, other decorations
+            let mut o = MonoTextStyleBuilder::<C>::new().font(font).underline_with_color(C::nth(7)).strikethrough();
+            if let Some(c) = self.text_color {
+                o = o.text_color(C::nth(c));
+            }
+            if let Some(c) = self.bg {
+                o = o.background_color(C::nth(c));
+            }
+            other = o.build();
+            b = MonoTextStyleBuilder::from(&other);
+            b = match self.underline {
+                DecoD::None => b.reset_underline(),
+                DecoD::TextColor => b.underline(),
+                DecoD::Custom(c) => b.underline_with_color(C::nth(c)),
+            };
+            b = match self.strike {
+                DecoD::None => b.reset_strikethrough(),
+                DecoD::TextColor => b.strikethrough(),
+                DecoD::Custom(c) => b.strikethrough_with_color(C::nth(c)),
+            };
+            let style = b.build();
+            return self.finish_text(style, derived, f);
+        }
         if let Some(c) = self.text_color {
             b = b.text_color(C::nth(c));
         }
@@ -453,14 +542,24 @@ impl TextD {
             DecoD::Custom(c) => b.strikethrough_with_color(C::nth(c)),
         };
         let style = b.build();
-        let ts = TextStyleBuilder::new()
-            .alignment(alignment_of(self.align))
-            .baseline(baseline_of(self.baseline))
-            .line_height(match self.lh {
-                LhD::Pixels(p) => LineHeight::Pixels(p),
-                LhD::Percent(p) => LineHeight::Percent(p),
-            })
-            .build();
+        self.finish_text(style, derived, f)
+    }
+    fn finish_text<C: Col, R>(&self, style: MonoTextStyle<'_, C>, derived: bool, f: impl FnOnce(&Text<'_, MonoTextStyle<'_, C>>) -> R) -> R {
+        let lh = match self.lh {
+            LhD::Pixels(p) => LineHeight::Pixels(p),
+            LhD::Percent(p) => LineHeight::Percent(p),
+        };
+        let ts = if derived && self.at.0 % 2 == 0 {
+            // same alignment, other baseline and line height
+            let other = TextStyleBuilder::new().alignment(alignment_of(self.align)).baseline(baseline_of((self.baseline + 1) % 4)).line_height(LineHeight::Pixels(3)).build();
+            TextStyleBuilder::from(&other).baseline(baseline_of(self.baseline)).line_height(lh).build()
+        } else if derived {
+            // same baseline and line height, other alignment
+            let other = TextStyleBuilder::new().alignment(alignment_of((self.align + 1) % 3)).baseline(baseline_of(self.baseline)).line_height(lh).build();
+            TextStyleBuilder::from(&other).alignment(alignment_of(self.align)).build()
+        } else {
+            TextStyleBuilder::new().alignment(alignment_of(self.align)).baseline(baseline_of(self.baseline)).line_height(lh).build()
+        };
         let t = Text::with_text_style(&self.text, pt(self.at), style, ts);
         f(&t)
     }
